@@ -43,7 +43,7 @@ func TestSim(t *testing.T)  { sim.RunTest(t) }
 
 func gen(a hx.Args) {
 	r := hx.NewRng(a.Seed)
-	n := a.N(50, 1200)
+	n := a.N(250, 2500)
 	for i := 0; i < n; i++ {
 		nprod := 1 + r.Intn(3)
 		perprod := 10 + r.Intn(60)
